@@ -480,6 +480,20 @@ func isLoopIndex(v ssa.Value) bool {
 		if _, ok := x.Tuple.(*ssa.Next); ok && x.Index == 1 {
 			return true
 		}
+	case *ssa.UnOp:
+		// a local that holds nothing but the loop index (idx := idx; a per-iteration loop variable)
+		if al, ok := x.X.(*ssa.Alloc); ok && x.Op == token.MUL {
+			n, all := 0, true
+			for _, rf := range refs(al) {
+				if st, ok := rf.(*ssa.Store); ok && st.Addr == ssa.Value(al) {
+					n++
+					if st.Val == v || !isLoopIndex(st.Val) {
+						all = false
+					}
+				}
+			}
+			return n > 0 && all
+		}
 	}
 	return false
 }
